@@ -58,6 +58,9 @@ impl<K: KeyOfSetColumn, C: ConcurrentSet<Element = K::Element> + Default>
             return OwnedIterator::new(set, |x| x.iter());
         }
 
+        #[cfg(feature = "verif")]
+        qbice_verif_rt::point("in_memory_key_of_set_get_miss");
+
         match self.map.entry_sync(key.clone()) {
             Entry::Occupied(occupied_entry) => {
                 let cloned_set = occupied_entry.get().clone();
@@ -90,6 +93,9 @@ impl<K: KeyOfSetColumn, C: ConcurrentSet<Element = K::Element> + Default>
         }
 
         let new_set = C::default();
+
+        #[cfg(feature = "verif")]
+        qbice_verif_rt::point("in_memory_key_of_set_insert_miss");
 
         match self.map.entry_sync(key) {
             Entry::Occupied(occupied_entry) => {
